@@ -155,9 +155,16 @@ def tie(run, seed, n_random, log=print):
             stats['differ'] += 1
             if len(stats['samples']) < 5:
                 stats['samples'].append(dict(definition=src, model=a, what=what))
-            run.violation('tie', dict(definition=src, model=a, derive_errors=cap.errs, what=what,
-                                      correspondence='TypeParams::reject_recursive_types + Parser::get_type (traverse_type) vs LogosModel.TypeSubst (cyclic, reject, getType)'),
-                          no_input=True, key='typesubst|' + src)
+            if cyc and cap.verdict != 'REJECT':
+                # the property itself: an item whose parameter reaches itself (TypeSubst.cyclic_iff) cannot be substituted away - the
+                # rewrite of a field type mentioning it never ends (getType_found_diverges); the derive has to refuse the definition
+                run.violation('recursive-type-accepted', dict(definition=src, verdict=cap.verdict, derive_errors=cap.errs, circular_items=['P%d' % k for k in cyc],
+                                                              what='the concrete types of %s refer to themselves (through each other); the derive does not refuse the definition (verdict %s): rewriting a field type that mentions them does not end' % (', '.join('P%d' % k for k in cyc), cap.verdict)),
+                              key='typesubst|' + src)
+            else:
+                run.violation('tie', dict(definition=src, model=a, derive_errors=cap.errs, what=what,
+                                          correspondence='TypeParams::reject_recursive_types + Parser::get_type (traverse_type) vs LogosModel.TypeSubst (cyclic, reject, getType)'),
+                              no_input=True, key='typesubst|' + src)
     stats['what'] = ('TypeSubst (mentions, the search of reject_recursive_types, getType after reject) on the type items of generic enums, compared with the items the real derive '
                      'reports as referring to themselves and with the field types it generates (CallbackRetVal::<_, TYPE, _>); theorems getType_total (the rewrite ends after reject), '
                      'cyclic_iff (an item is reported iff its parameter reaches itself)')
